@@ -315,6 +315,8 @@ def extras(o) -> str:
     if isinstance(o, PosBase):
         ell = getattr(o, "ellipsoid", None)       # the delta classes have no ellipsoid of their own
         return f"{o.system}/{getattr(ell, 'name', '-')}"
+    if isinstance(o, np.ndarray) and o.dtype.kind == "U":
+        return str(o.dtype)                       # the width of a text array is part of its type
     return ""
 
 
@@ -679,7 +681,7 @@ def meta_suffix(meta_written: dict, meta_read, vars_read) -> str:
 
 
 def one_dataset(ctx: Ctx, setup_ops, level: int, meta: dict, tmp: str, tag: str, mult: dict = None, tattr: dict = None,
-                dvars: dict = None):
+                dvars: dict = None, widen: dict = None):
     from midgard.data import dataset
 
     rw = RealWorld()
@@ -696,6 +698,14 @@ def one_dataset(ctx: Ctx, setup_ops, level: int, meta: dict, tmp: str, tag: str,
         ds.meta[k] = v
     dvars = dvars or {}
     ds.vars.update(dvars)
+    widen = widen or {}
+    for path, extra in widen.items():     # a text array whose dtype is wider than its longest value (an explicit dtype; what
+        try:                              # is left after a subset removed the longest rows): oracle only
+            f = ds.field(path)
+            f.data = f.data.astype(f"<U{f.data.dtype.itemsize // 4 + int(extra)}")
+            ctx.count("text:dtype-wider-than-values" + ("(2-d)" if f.data.ndim == 2 else ""))
+        except Exception:
+            ctx.count("text:not-widened")
     mult = mult or {}
     for path, m in mult.items():      # the multiplier of a field (not part of the model: oracle only)
         try:
@@ -731,7 +741,7 @@ def one_dataset(ctx: Ctx, setup_ops, level: int, meta: dict, tmp: str, tag: str,
             except Exception:
                 ctx.count("time-attribute:not-set")
     case = {"ops": concrete, "level": level, "meta": {k: meta_tokens(v) for k, v in meta.items()}, "mult": mult, "tattr": tattr,
-            "vars": meta_tokens(dvars)}
+            "vars": meta_tokens(dvars), "widen": widen}
     if dvars:
         ctx.count("vars:non-empty")
     for v in meta.values():
@@ -870,6 +880,16 @@ def one_dataset(ctx: Ctx, setup_ops, level: int, meta: dict, tmp: str, tag: str,
         return
     if restr != "ok:" + render_ds_restricted(ds, level):
         ctx.disagree("restrict (model of 'fields of that level')", case, restr, "ok:" + render_ds_restricted(ds, level))
+    # text fields keep their width: a string as long as the written dtype allows still fits after the read
+    for _fp, _f in restricted_index(ds, level):
+        if _f.fieldtype == "text" and _f.data.size:
+            w = _f.data.dtype.itemsize // 4
+            b = np.array(e[_fp], copy=True)
+            b.flat[0] = "w" * w
+            if str(b.flat[0]) != "w" * w:
+                ctx.violate("roundtrip:text-width", f"{_fp}: written with dtype {_f.data.dtype}, read back {e[_fp].dtype}: a string of "
+                            f"{w} characters assigned to the field that was read is cut to {str(b.flat[0])!r}", case)
+                return
     # vars
     if not _same(dict(dvars), dict(e.vars)):
         ctx.violate("vars", f"vars: wrote {dvars!r}, read {dict(e.vars)!r}", case)
@@ -1168,7 +1188,7 @@ def run(ctx: Ctx):
                 if "codec" in c:
                     codec_case(ctx, tokens_meta(c["codec"]))
                 else:
-                    one_dataset(ctx, c["ops"], c["level"], {k: tokens_meta(v) for k, v in c.get("meta", {}).items()}, tmp, "corpus", c.get("mult"), c.get("tattr"), tokens_meta(c["vars"]) if c.get("vars") else None)
+                    one_dataset(ctx, c["ops"], c["level"], {k: tokens_meta(v) for k, v in c.get("meta", {}).items()}, tmp, "corpus", c.get("mult"), c.get("tattr"), tokens_meta(c["vars"]) if c.get("vars") else None, c.get("widen"))
         dispatch_cases(ctx, rng, ctx.budget(1500, 20000))
         for t in TRICKY:
             codec_case(ctx, t)
@@ -1205,7 +1225,8 @@ def run(ctx: Ctx):
                             anon_time[k] = nobj
                             nobj += 1
                         tattr[o["path"]] = ["o", anon_time[k]]
-            items.append((ops, rng.choice([1, 2, 3]), meta, mult, tattr, dvars))
+            widen = {o["path"]: rng.choice([1, 3, 6]) for o in ops if o["op"] == "add" and o["kind"] == "text" and rng.random() < 0.4}
+            items.append((ops, rng.choice([1, 2, 3]), meta, mult, tattr, dvars, widen))
         run_cases(ctx, "dataset", items)
     finally:
         shutil.rmtree(tmp, ignore_errors=True)
@@ -1267,7 +1288,7 @@ def replay(payload):
         if "codec" in c:
             codec_case(ctx, tokens_meta(c["codec"]))
         else:
-            one_dataset(ctx, c["ops"], c["level"], {k: tokens_meta(v) for k, v in c.get("meta", {}).items()}, tmp, "replay", c.get("mult"), c.get("tattr"), tokens_meta(c["vars"]) if c.get("vars") else None)
+            one_dataset(ctx, c["ops"], c["level"], {k: tokens_meta(v) for k, v in c.get("meta", {}).items()}, tmp, "replay", c.get("mult"), c.get("tattr"), tokens_meta(c["vars"]) if c.get("vars") else None, c.get("widen"))
     finally:
         shutil.rmtree(tmp, ignore_errors=True)
     for v in ctx.violations:
